@@ -55,11 +55,11 @@ def roots(tr, det):
     return (tr + math.sqrt(disc)) / 2, (tr - math.sqrt(disc)) / 2
 
 
-def check_sky(name, obs, dx, l1, l2, fails):
+def check_sky(name, obs, dx, l1, l2, fails, floor=0.0):
     """sigmas against dx*sqrt(eigenvalue); a square root amplifies rounding near 0, so the minor axis
     and the products are compared with an absolute tolerance relative to the major axis."""
     major, minor = dx * math.sqrt(max(l1, 0)), dx * math.sqrt(max(l2, 0))
-    atol = 1e-6 * max(major, 1e-12)
+    atol = 1e-6 * max(major, floor, 1e-12)
     for k, w in (('major_sigma', major), ('minor_sigma', minor)):
         g = obs[k]
         if not (g == g) or abs(g - w) > atol + 1e-7 * abs(w):
@@ -116,7 +116,8 @@ def mixed_sign_stream(ctx):
             o = nd - 2
             a, b, c = float(m2[o][o]), float(m2[o][o + 1]), float(m2[o + 1][o + 1])
             l1, l2 = roots(a + c, a * c - b * b)
-            check_sky('mixed-sign', obs, dx, l1, l2, fails)
+            # (with both eigenvalues <= 0 the widths are 0 up to the square root of a rounding error of the covariance)
+            check_sky('mixed-sign', obs, dx, l1, l2, fails, floor=dx * math.sqrt(max(abs(a), abs(b), abs(c), 1e-30)))
             if nd == 3:
                 wv = math.sqrt(max(float(m2[0][0]), 0.0))
                 if not (obs['v_rms'] == obs['v_rms']) or abs(obs['v_rms'] - wv) > 1e-6 * max(wv, 1.0):
